@@ -379,6 +379,8 @@ fn observation_vector_net(net: Network, addrs: &[String]) -> Vec<(String, String
     }
     v.push(("headers".to_string(), c::get_headers(net, 0, None)));
     v.push(("synced".to_string(), format!("{}", can::verif_hooks::is_synced() as u8)));
+    // an update call (it may fill the cache): asked last, before and after the upgrade
+    v.push(("fees".to_string(), c::get_fees(net)));
     v
 }
 
